@@ -14,6 +14,13 @@ let path_of_tok = function
   | "readdict+pages" -> Model.PathReadDictThenPages
   | s -> failwith ("access path: " ^ s)
 
+let column_path_of_tok = function
+  | "sequential" -> Model.ColSequential
+  | "seek-before" -> Model.ColSeek Model.RgBefore
+  | "seek-at" -> Model.ColSeek Model.RgAt
+  | "seek-after" -> Model.ColSeek Model.RgAfter
+  | s -> failwith ("column access path: " ^ s)
+
 let tok_of_check = function
   | None -> "skip"
   | Some Model.CrcVerified -> "crc"
@@ -50,4 +57,14 @@ let () =
     | [pinned; enc; dict; path; kind; target] ->
         let tbl = if bool_of_tok pinned then Model.loader_check_pinned else Model.loader_check in
         tok_of_check (Model.path_check tbl (bool_of_tok enc) (bool_of_tok dict) (path_of_tok path) (kind_of_tok kind) (kind_of_tok target))
-    | _ -> failwith "c13.path args")
+    | _ -> failwith "c13.path args");
+  (* the reader of a column across row groups (Column.Pages):
+     pinned enc dict path noindex kind target -> crc | aead | none | skip
+     path = sequential | seek-before | seek-at | seek-after: where the row group of the
+     page lies relative to the row group the seek went to *)
+  register "c13.colpath" (function
+    | [pinned; enc; dict; path; noindex; kind; target] ->
+        let tbl = if bool_of_tok pinned then Model.loader_check_pinned else Model.loader_check in
+        tok_of_check (Model.column_path_check tbl (bool_of_tok enc) (bool_of_tok dict) (column_path_of_tok path)
+                        (bool_of_tok noindex) (kind_of_tok kind) (kind_of_tok target))
+    | _ -> failwith "c13.colpath args")
